@@ -17,7 +17,7 @@ sys.path.insert(0, os.path.dirname(__file__))
 from common import Run, theorems_of
 import heapcorr as H
 import segcorr
-from hl7apy.core import Segment, Field, Component, SubComponent, Element
+from hl7apy.core import Segment, Field, Component, SubComponent, Element, Message, Group
 
 PLAIN = re.compile(r'^[A-Za-z0-9]+$')
 
@@ -48,6 +48,8 @@ def canon(x, name):
         if x.allow_infinite_children and re.match(r'^%s_\d+$' % re.escape(x.name), n):
             return n
         return None
+    if isinstance(x, Group):           # Message is a Group
+        return n if (n.startswith('Z') and len(n) == 3) else None
     dt = x.datatype
     lib = H.hl7apy.load_library(x.version)
     if isinstance(x, Field):
@@ -64,6 +66,15 @@ def canon(x, name):
     return None
 
 
+def addressed(pos, idx):
+    """position in the children list of the idx-th repetition (Python index, may be negative), or None"""
+    if idx < 0:
+        idx += len(pos)
+        if idx < 0:
+            return None
+    return pos[idx] if idx < len(pos) else None
+
+
 def spec_encode(x, spec, ec):
     """independent structure-order encoder of a Segment / complex Field / complex Component from the
     abstract list [(name, payload)]; None when the element is outside this encoder's domain"""
@@ -71,6 +82,13 @@ def spec_encode(x, spec, ec):
     by = {}
     for _, nm, pl in spec:
         by.setdefault(nm, []).append(pl)
+    if isinstance(x, Group):
+        if x.validation_level == H.TOLERANT:
+            return ec['SEGMENT'].join(pl for _, _, pl in spec)          # insertion order
+        out = []
+        for k in (x.ordered_children or []):                            # STRICT: structure order (F18)
+            out.extend(by.get(k, []))
+        return ec['SEGMENT'].join(out)
     if isinstance(x, Segment):
         keys = list(x.ordered_children or [])
         if x.allow_infinite_children:
@@ -116,7 +134,7 @@ class Expect(object):
         self.target = None
         self.rule = None
         I = impl.I
-        if k in ('add', 'remove', 'addhelper', 'dellistindex', 'setlistindex') or \
+        if k in ('add', 'remove', 'addhelper', 'addsegment', 'addgroup', 'dellistindex', 'setlistindex') or \
                 (k in ('setattr', 'delattr', 'setindex', 'delindex') and len(op[2]) == 1):
             if 0 <= op[1] < len(I):
                 self.target = I[op[1]]
@@ -153,7 +171,7 @@ class Expect(object):
             if id(self.arg) in ids_b:
                 return None, 'already listed (C10 / F8)'
             return b + [(self.arg.name, enc(self.arg, self.ec))], 'add appends'
-        if k == 'addhelper':
+        if k in ('addhelper', 'addsegment', 'addgroup'):
             if len(a) != len(b) + 1:
                 return b + [('?', '')], 'add_<child> appends one child'
             return b + [a[-1]], 'add_<child> appends one child'
@@ -170,9 +188,9 @@ class Expect(object):
                 return None, ''
             idx = 0 if k == 'delattr' else self.op[3]
             pos = [j for j, (nm, _) in enumerate(b) if nm == self.cname]
-            if idx >= len(pos):
+            j = addressed(pos, idx)
+            if j is None:
                 return None, ''
-            j = pos[idx]
             return b[:j] + b[j + 1:], 'deletion removes exactly the addressed repetition'
         if k in ('setattr', 'setindex', 'setlistindex'):
             if k == 'setlistindex':
@@ -187,7 +205,7 @@ class Expect(object):
                 name = self.cname
                 idx = 0 if k == 'setattr' else self.op[3]
                 pos = [j for j, (nm, _) in enumerate(b) if nm == name]
-                pos_j = pos[idx] if idx < len(pos) else None
+                pos_j = addressed(pos, idx)
             # the payload: whatever the new child encodes to (compared by value below for copies)
             if pos_j is None:
                 if len(a) != len(b) + 1:
@@ -208,7 +226,9 @@ class Expect(object):
         if k in ('setattr', 'setindex') and self.cname is not None:
             idx = 0 if k == 'setattr' else self.op[3]
             pos = [j for j, (nm, _) in enumerate(b) if nm == self.cname]
-            j = pos[idx] if idx < len(pos) else len(b)
+            j = addressed(pos, idx)
+            if j is None:
+                j = len(b)
             return (j, after[j][2]) if j < len(after) else None
         return None
 
@@ -232,13 +252,24 @@ def main(argv=None):
         cases = []
         for k in range(nhist // len(versions)):
             lvl = H.TOLERANT if k % 2 == 0 else H.STRICT
-            g = H.Gen(rng, v, lvl, profile=('segment' if k % 2 else 'deep'), nsteps=nsteps)
+            g = H.Gen(rng, v, lvl, profile=('reps' if k % 4 == 0 else ('segment' if k % 2 else 'deep')), nsteps=nsteps)
             state = {}
             check_step(run, g, v, lvl, stats, shapes, state)
             cases.append((g.ops, g.obs))
             if len(samples) < 4 and k % 83 == 7:
                 samples.append({'version': v, 'level': lvl, 'ops': g.ops, 'codes': g.codes})
         all_cases[v] = cases
+    # message-level family (Message / Group parents: outside the Coq model, judged by the oracle only)
+    nmsg = 900 if run.thorough else 260
+    stats['message_level_histories'] = nmsg
+    for k in range(nmsg):
+        v = versions[k % len(versions)]
+        lvl = H.TOLERANT if k % 2 == 0 else H.STRICT
+        g = H.MsgGen(rng, v, lvl, nsteps=14)
+        check_step(run, g, v, lvl, stats, shapes, {})
+        if k == 5:
+            samples.append({'version': v, 'level': lvl, 'message_level': True, 'ops': g.ops, 'codes': g.codes})
+    H.shrink_oracle_failures(run, oracle_on_history, ('rule', 'target_class', 'value_kind'))
     run.log('implementation side: %d steps, %d successful mutations compared with the reference model, %d failures'
             % (stats['steps'], stats['mutations_checked'], len(run.failures)))
     evaluated = steps = 0
@@ -289,7 +320,7 @@ def check_step(run, g, v, lvl, stats, shapes, state):
         stats['by_rule'][ex.rule] = stats['by_rule'].get(ex.rule, 0) + 1
         shapes.add((v, lvl, x.classname, ex.rule, min(len(ex.before), 6)))
         got = [(nm, pl) for _, nm, pl in after]
-        dtp = None if isinstance(x, Segment) else x.datatype
+        dtp = None if isinstance(x, (Segment, Group)) else x.datatype
         vk = {'t': 'text', 'e': 'element', 'p': 'proxy-copy', 'd': 'datatype-object'}.get(ex.rhs[0]) if ex.rhs else None
         if got != want:
             run.fail('list-edit-differs', '%s: children are %r, the reference model has %r' % (note, got[:8], want[:8]),
@@ -318,23 +349,40 @@ def check_step(run, g, v, lvl, stats, shapes, state):
     g.run(hook)
 
 
+def oracle_on_history(run, v, ops, lvl=None):
+    class G(object):
+        pass
+    g = G()
+    g.ops = []
+    runner = H.run_message_history if any(o[0] == 'newmsg' for o in ops) else H.run_history
+    stats = {'steps': 0, 'mutations_checked': 0, 'by_rule': {}, 'encodings_compared': 0, 'copies_checked': 0}
+
+    def run_(hook):
+        runner(v, ops, lambda impl, kk, op, ph, d: (g.ops.append(op) if ph == 'after' else None, hook(impl, kk, op, ph, d)))
+    g.run = run_
+    check_step(run, g, v, lvl, stats, set(), {})
+
+
 def replay(run):
     r = json.load(open(run.replay))
     inp = r.get('input', {})
     ops = inp.get('ops')
     v = inp.get('version', '2.5')
-    if ops:
+    if ops and False:
         class G(object):
             pass
         g = G()
         g.ops = []
+        runner = H.run_message_history if any(o[0] == 'newmsg' for o in ops) else H.run_history
         stats = {'steps': 0, 'mutations_checked': 0, 'by_rule': {}, 'encodings_compared': 0, 'copies_checked': 0}
         state = {}
 
         def run_(hook):
-            H.run_history(v, ops, lambda impl, kk, op, ph, d: (g.ops.append(op) if ph == 'after' else None, hook(impl, kk, op, ph, d)))
+            runner(v, ops, lambda impl, kk, op, ph, d: (g.ops.append(op) if ph == 'after' else None, hook(impl, kk, op, ph, d)))
         g.run = run_
         check_step(run, g, v, inp.get('level'), stats, set(), state)
+    if ops:
+        oracle_on_history(run, v, ops, inp.get('level'))
     for f in run.failures:
         print('replayed failure:', f['kind'], f['what'])
     run.finish({'evaluations': len(ops or []), 'distinct_nontrivial': 1, 'rule': 'replay of one stored history',
